@@ -205,7 +205,14 @@ impl Encoder for TTYEncoder {
                 out.write_all(b"\x1bP$qm\x1b\\")?;
             }
             Reset => out.write_all(b"\x1bc")?,
-            Char(c) => write!(out, "{}", c)?,
+            Char(c) => match c {
+                // ESC and the C1 introducers (DCS, SOS, CSI, OSC, PM, APC) would open a control
+                // sequence and swallow the output that follows
+                '\x1b' | '\u{90}' | '\u{98}' | '\u{9b}' | '\u{9d}' | '\u{9e}' | '\u{9f}' => {
+                    write!(out, "{}", char::REPLACEMENT_CHARACTER)?
+                }
+                _ => write!(out, "{}", c)?,
+            },
             Scroll(count) => match count.cmp(&0) {
                 Ordering::Less => write!(out, "\x1b[{}T", count.unsigned_abs())?,
                 Ordering::Greater => write!(out, "\x1b[{}S", count)?,
